@@ -110,6 +110,24 @@ def render_item(it, k):
             "mixed": "{ 1, f = function(p) return p.zz end, zz = function(...) return ... end, g = {} }",
         }[it["g"]]
         return ["---@type %s" % ty(it["t"][0])], ["local %s = %s" % (it["n"], body)]
+    if kind == "stdcall":
+        # a tuple-typed value (annotated, or an array-like table literal) and calls of a std generic helper with
+        # literal index arguments, one call per (I, J) pair of the item
+        v, w, n = it["n"], it["w"], it["len"]
+        elems = [ty(it["t"][i % 2]) for i in range(n)]
+        if it["lit"]:
+            ann, code = [], ["local %s = { %s }" % (v, ", ".join(["1", "\"s\"", "true", "{}"][:n]))]
+        else:
+            ann, code = ["---@type [%s]" % ", ".join(elems)], ["local %s = {}" % v]
+        for q, (i, j) in enumerate(it["args"]):
+            call = it["g"].replace("I", str(i)).replace("J", str(j))
+            if "up(" in call:
+                code += ["---@generic T", "---@param t T", "---@return std.Unpack<T, %d, %d>" % (i, j),
+                         "local function up(t) end"]
+            call = expr(call, v, w)
+            code.append("local _s%d_%da, _s%d_%db, _s%d_%dc = %s" % (k, q, k, q, k, q, call))
+            code.append("print(_s%d_%da, _s%d_%db, _s%d_%dc)" % (k, q, k, q, k, q))
+        return ann, code
     if kind == "use":
         e = expr(it["e"], it["n"], it["w"])
         how = it["g"]
@@ -299,7 +317,7 @@ def run(ctx):
                                 "files": [[ROOT + "/a.lua", texts["a"]], [ROOT + "/b.lua", texts["b"]]]}})
     vlib.build(["vh-analysis"])
     results = replay(ctx, cases)
-    feats = {"selfsuper": 0, "mutualsuper": 0, "recalias": 0, "malformed": 0, "aliassuper": 0, "tablit": 0}
+    feats = {"selfsuper": 0, "mutualsuper": 0, "recalias": 0, "malformed": 0, "aliassuper": 0, "tablit": 0, "stdcall": 0}
     seen = {}
     tokens = 0
     for i, c in enumerate(cases):
